@@ -112,16 +112,21 @@ pub fn http_batch(a: &Value) -> Value {
         let (violation, obs) = match res {
             Err(e) => (false, json!({"outcome":"Err","err":e.to_string().chars().take(120).collect::<String>()})),
             Ok(r) => {
+                let (n_ok, n_err) = (r.num_successful_calls(), r.num_failed_calls());
                 let entries: Vec<Result<String, i32>> = r.into_iter().map(|x| x.map_err(|e| e.code())).collect();
                 let first = 16u64; // ids 0..15 were used by the warm-up calls
                 let mut bad = entries.len() != n;
+                // the counts describe the entries
+                if n_ok != entries.iter().filter(|e| e.is_ok()).count() || n_err != entries.iter().filter(|e| e.is_err()).count() {
+                    bad = true;
+                }
                 for (i, e) in entries.iter().enumerate() {
                     if let Ok(v) = e { if *v != format!("answer-for-{}", first + i as u64) { bad = true; } }
                 }
-                (bad, json!({"outcome":"Ok","entries":entries.iter().map(|e| match e { Ok(v) => v.clone(), Err(c) => format!("Err({c})") }).collect::<Vec<_>>()}))
+                (bad, json!({"outcome":"Ok","counted_ok":n_ok,"counted_failed":n_err,"entries":entries.iter().map(|e| match e { Ok(v) => v.clone(), Err(c) => format!("Err({c})") }).collect::<Vec<_>>()}))
             }
         };
-        json!({"scenario":"c12_http_batch","observed":obs,"violation":violation,"why": if violation {"HTTP batch completed with a list of the wrong length or an entry holding another entry's answer"} else {""}})
+        json!({"scenario":"c12_http_batch","observed":obs,"violation":violation,"why": if violation {"HTTP batch completed with a list of the wrong length, an entry holding another entry's answer, or success / failure counts that do not describe its entries"} else {""}})
     })
 }
 
